@@ -25,7 +25,8 @@ except ImportError:
 
 def _get_color_from_string(a_string: str, colors: bool):
     if colors:
-        hash_str = f"{crc32(a_string.encode('utf-8'))}"
+        # always 10 digits, so that 6 of them are left for the colour
+        hash_str = f"{crc32(a_string.encode('utf-8')):010d}"
         return f"#{hash_str[2:8]}"
     return "#F0F0F0"
 
